@@ -82,6 +82,11 @@ pub fn gen_tau(rng: &mut Rng) -> u64 {
     b * rng.range(75, 125) / 100
 }
 
+/// time passing on every clock read: none in half of the runs, else 100 ns … 2 ms
+pub fn gen_read_step(rng: &mut Rng) -> u64 {
+    *rng.pick(&[0u64, 0, 0, 0, 100, 10_000, 300_000, 2_000_000])
+}
+
 pub fn gen_policy(rng: &mut Rng) -> Policy {
     match rng.weighted(&[40, 15, 15, 10, 20]) {
         0 => Policy::Uniform,
@@ -100,6 +105,7 @@ pub fn gen_knobs(rng: &mut Rng) -> Knobs {
         policy: gen_policy(rng),
         spurious_permille: *rng.pick(&[0u32, 0, 0, 0, 5, 50]),
         resend_position: true,
+        clock_read_step_ns: gen_read_step(rng),
     }
 }
 
